@@ -123,13 +123,17 @@ Proof. split; [constructor|intros k v []]. Qed.
 
 Lemma api_wf_step a o : api_wf a -> api_wf (api_step a o).
 Proof.
-  intros (Hn & Hc & Hp). destruct o; simpl; try (repeat split; assumption);
-  unfold api_wf; simpl; repeat split; try assumption;
-  first [apply keyed_aset; assumption | apply keyed_adel; assumption].
+  intros (Hn & Hc & Hp). destruct o; simpl; unfold api_wf; simpl; try (split; [|split]; assumption).
+  - split; [apply keyed_aset, Hn|split; assumption].
+  - split; [apply keyed_adel, Hn|split; assumption].
+  - split; [assumption|split; [apply keyed_aset, Hc|assumption]].
+  - split; [assumption|split; [apply keyed_adel, Hc|assumption]].
+  - split; [assumption|split; [assumption|apply keyed_aset, Hp]].
+  - split; [assumption|split; [assumption|apply keyed_adel, Hp]].
 Qed.
 
 Lemma api_wf_0 : api_wf api0.
-Proof. repeat split; try constructor; intros k v []. Qed.
+Proof. split; [|split]; apply keyed_nil. Qed.
 
 (* ================= populateResourceRequests ================= *)
 Definition on_node (name : string) (p : podobj) : bool := (p_node p =s name) && negb (p_term p).
